@@ -64,7 +64,11 @@ impl DynamicConstraintsEncoder {
     }
 
     pub fn new_argument<T: LabelType>(&mut self, af: &mut AAFramework<T>, label: T) {
+        let n_arguments = af.n_arguments();
         af.new_argument(label);
+        if af.n_arguments() == n_arguments {
+            return;
+        }
         if self.next_dummy_arg_var >= self.n_arg_vars {
             self.need_to_encode = true;
         }
